@@ -5,7 +5,8 @@
 //! <https://spec.commonmark.org/0.30/#images>
 use crate::{MarkdownIt, Node, NodeValue, Renderer};
 use crate::generics::inline::full_link;
-use crate::parser::inline::Text;
+use crate::parser::inline::{Text, TextSpecial};
+use crate::plugins::cmark::inline::newline::{Hardbreak, Softbreak};
 
 #[derive(Debug)]
 pub struct Image {
@@ -23,6 +24,10 @@ impl NodeValue for Image {
         node.walk(|node, _| {
             if let Some(text) = node.cast::<Text>() {
                 alt.push_str(text.content.as_str());
+            } else if let Some(text) = node.cast::<TextSpecial>() {
+                alt.push_str(text.content.as_str());
+            } else if node.is::<Softbreak>() || node.is::<Hardbreak>() {
+                alt.push('\n');
             }
         });
 
